@@ -676,6 +676,56 @@ def lean_str(s):
     return json.dumps(s)
 
 
+# ---- typed entry points of the mock API through which an integer parameter value is created
+CPP_KIND = {"int": "int", "unsigned int": "uint", "long int": "long", "unsigned long int": "ulong",
+            "cpputest_longlong": "llong", "cpputest_ulonglong": "ullong"}
+CALL_CLASSES = (("actual", "include/CppUTestExt/MockActualCall.h", "MockActualCall", "src/CppUTestExt/MockActualCall.cpp",
+                 "MockCheckedActualCall",
+                 "MockNamedValueactualParameter(name);actualParameter.setValue(value);checkInputParameter(actualParameter);return*this;"),
+                ("expected", "include/CppUTestExt/MockExpectedCall.h", "MockExpectedCall", "src/CppUTestExt/MockExpectedCall.cpp",
+                 "MockCheckedExpectedCall",
+                 "MockNamedValue*newParameter=newMockExpectedFunctionParameter(name);inputParameters_->add(newParameter);"
+                 "newParameter->setValue(value);return*this;"))
+
+
+def api_entries():
+    """(a) the inline `withParameter(name, <integer type> value)` overloads of MockActualCall / MockExpectedCall and the explicit
+    method each forwards to; (b) the explicit `with…IntParameter(name, T value)` methods of the checked call classes, shape-checked
+    to store `value` through `setValue(value)` (overload selected by T)."""
+    import re
+    from .common import read, strip_comments, function_body
+    overloads, explicit = [], []
+    for cls, hdr, base, src, impl, want in CALL_CLASSES:
+        h = strip_comments(read(hdr))
+        found = {}
+        for m in re.finditer(r"%s\s*&\s*withParameter\s*\(\s*const\s+SimpleString\s*&\s*name\s*,\s*([\w ]+?)\s+value\s*\)\s*"
+                             r"\{\s*return\s+(\w+)\s*\(\s*name\s*,\s*value\s*\)\s*;\s*\}" % base, h):
+            t = re.sub(r"\s+", " ", m.group(1))
+            if t in CPP_KIND:
+                if t in found:
+                    raise TranslateError("%s: two withParameter overloads for %s" % (base, t))
+                found[t] = m.group(2)
+        for t, k in CPP_KIND.items():
+            if t not in found:
+                raise TranslateError("%s::withParameter(name, %s value) is not an inline forwarder `return withX(name, value);`" % (base, t))
+            overloads.append((cls, k, found[t]))
+        c = strip_comments(read(src))
+        methods = sorted(set(found.values()) | {"with%sParameter" % x for x in
+                                                ("Int", "UnsignedInt", "LongInt", "UnsignedLongInt", "LongLongInt", "UnsignedLongLongInt")})
+        for meth in methods:
+            m = re.search(r"%s::%s\s*\(\s*const\s+SimpleString\s*&\s*name\s*,\s*([\w ]+?)\s+value\s*\)\s*\{" % (impl, meth), c)
+            if not m:
+                raise TranslateError("%s::%s(const SimpleString& name, T value) not found" % (impl, meth))
+            t = re.sub(r"\s+", " ", m.group(1))
+            if t not in CPP_KIND:
+                raise TranslateError("%s::%s takes the unmodelled type %s" % (impl, meth, t))
+            body = nows_outside_strings(function_body(c, re.escape(m.group(0)[:-1]).replace("\\ ", "\\s*") + r"\{"))
+            if body != want:
+                raise TranslateError("%s::%s does not store its argument through setValue(value): `%s`" % (impl, meth, body[:200]))
+            explicit.append((cls, meth, CPP_KIND[t]))
+    return overloads, explicit
+
+
 def generate():
     check_callee_shapes()
     docs = clang_ast()
@@ -771,6 +821,15 @@ def generate():
             "/-- the platform predicates doubles_equal and StringFrom(double) rely on (src/Platforms/Gcc/UtestPlatform.cpp) -/",
             "def platformPredicates : List (String × String) :=",
             "  [ " + ",\n    ".join("(%s, %s)" % (lean_str(a), lean_str(b)) for a, b in platform_predicates()) + " ]", ""]
+    overloads, explicit = api_entries()
+    out += ["/-- C++ `withParameter(name, <integer type> value)` overloads of MockActualCall / MockExpectedCall:",
+            "    (call class, kind of the argument type, explicit method the inline forwarder calls) -/",
+            "def cppOverloads : List (String × String × String) :=",
+            "  [ " + ",\n    ".join("(%s, %s, %s)" % tuple(map(lean_str, x)) for x in overloads) + " ]", "",
+            "/-- explicit typed methods of MockCheckedActualCall / MockCheckedExpectedCall: (call class, method, kind of the declared",
+            "    parameter type; the body stores `value` through the `setValue` overload of that type) -/",
+            "def cppExplicit : List (String × String × String) :=",
+            "  [ " + ",\n    ".join("(%s, %s, %s)" % tuple(map(lean_str, x)) for x in explicit) + " ]", ""]
     out += ["end Gen.MockEquals", ""]
     return "\n".join(out), stats
 
